@@ -9,6 +9,7 @@
 #define VF_INPUTS(X) X(double, d, ) X(int, vi, ) X(unsigned char, wf, ) X(unsigned, off, ) X(unsigned char, pre, [N]) \
     X(unsigned char, g_text, [2][26]) X(double, g_val, ) X(double, strtod_val, ) X(unsigned char, dp, )
 #include "vf.h"
+#include "vf_str.h"
 #define VF_MODEL_PRINTF
 #define VF_MAXDIGITS 10
 #include "vf_libc.h"
